@@ -73,6 +73,8 @@ pub struct EpochWorld {
     pub token_code: u64,
     pub vault_code: u64,
     pub cfg: EpochCfg,
+    /// asset names that are cw20 tokens in this world (name = the token's symbol) -> token contract
+    pub cw20s: std::collections::BTreeMap<String, Addr>,
 }
 
 pub fn deploy_epoch_world(cfg: EpochCfg) -> Result<EpochWorld, String> {
@@ -113,7 +115,7 @@ pub fn deploy_epoch_world(cfg: EpochCfg) -> Result<EpochWorld, String> {
         &white_whale_std::fee_collector::ExecuteMsg::UpdateConfig { owner: None, pool_router: Some(router.to_string()),
             fee_distributor: Some(distributor.to_string()), pool_factory: Some(pool_factory.to_string()), vault_factory: Some(vault_factory.to_string()),
             take_rate: None, take_rate_dao_address: None, is_take_rate_active: None }, &[]).map_err(e)?;
-    Ok(EpochWorld { app, collector, pool_factory, router, vault_factory, lair, distributor, pair_code, token_code, vault_code, cfg })
+    Ok(EpochWorld { app, collector, pool_factory, router, vault_factory, lair, distributor, pair_code, token_code, vault_code, cfg, cw20s: Default::default() })
 }
 
 impl EpochWorld {
@@ -124,7 +126,40 @@ impl EpochWorld {
         b.time = Timestamp::from_nanos(nanos);
         self.app.set_block(b);
     }
-    pub fn bal(&self, who: &str, denom: &str) -> u128 { native_balance(&self.app, denom, who) }
+    pub fn bal(&self, who: &str, denom: &str) -> u128 {
+        match self.cw20s.get(denom) { Some(tok) => cw20_balance(&self.app, tok, who), None => native_balance(&self.app, denom, who) }
+    }
+    /// make the asset called `name` a cw20 token (symbol = name, 6 decimals); OWNER, the users and `extra` accounts are funded
+    pub fn make_cw20(&mut self, name: &str, extra: &[&str]) -> Addr {
+        let code = self.app.store_code(cw20_base_contract());
+        let tok = deploy_cw20(&mut self.app, code, name, 6);
+        for who in extra {
+            self.app.execute_contract(Addr::unchecked(OWNER), tok.clone(), &cw20::Cw20ExecuteMsg::Mint { recipient: who.to_string(), amount: Uint128::new(1u128 << 100) }, &[]).unwrap();
+        }
+        self.cw20s.insert(name.to_string(), tok.clone());
+        tok
+    }
+    pub fn ainfo(&self, name: &str) -> AssetInfo {
+        match self.cw20s.get(name) { Some(tok) => AssetInfo::Token { contract_addr: tok.to_string() }, None => native(name) }
+    }
+    pub fn asset_of(&self, name: &str, amount: u128) -> Asset { Asset { info: self.ainfo(name), amount: Uint128::new(amount) } }
+    /// move `amount` of asset `name` from `from` to `to` (bank send or cw20 transfer)
+    pub fn transfer(&mut self, from: &str, to: &str, name: &str, amount: u128) -> anyhow::Result<AppResponse> {
+        match self.cw20s.get(name).cloned() {
+            Some(tok) => self.app.execute_contract(Addr::unchecked(from), tok, &cw20::Cw20ExecuteMsg::Transfer { recipient: to.to_string(), amount: Uint128::new(amount) }, &[]),
+            None => self.app.send_tokens(Addr::unchecked(from), Addr::unchecked(to), &[coin(amount, name)]),
+        }
+    }
+    fn allow(&mut self, owner: &str, spender: &Addr, name: &str, amount: u128) {
+        if let Some(tok) = self.cw20s.get(name).cloned() {
+            self.app.execute_contract(Addr::unchecked(owner), tok, &cw20::Cw20ExecuteMsg::IncreaseAllowance { spender: spender.to_string(), amount: Uint128::new(amount), expires: None }, &[]).unwrap();
+        }
+    }
+    fn native_funds(&self, parts: &[(&str, u128)]) -> Vec<Coin> {
+        let mut funds: Vec<Coin> = parts.iter().filter(|(n, _)| !self.cw20s.contains_key(*n)).map(|(n, x)| coin(*x, *n)).collect();
+        funds.sort_by(|p, q| p.denom.cmp(&q.denom));
+        funds
+    }
 
     // ---- whale lair ----
     pub fn bond(&mut self, who: &str, asset: Asset, funds: &[Coin]) -> anyhow::Result<AppResponse> {
@@ -262,10 +297,14 @@ pub mod borrower {
     use cosmwasm_std::{to_json_binary, BankMsg, Binary, Coin, Deps, DepsMut, Empty, Env, MessageInfo, Response, StdResult};
     use cw_multi_test::{Contract, ContractWrapper};
     #[cw_serde]
-    pub enum Exec { Send { to_address: String, amount: Vec<Coin> } }
+    pub enum Exec { Send { to_address: String, amount: Vec<Coin> }, Cw20Transfer { token: String, to_address: String, amount: cosmwasm_std::Uint128 } }
     fn instantiate(_d: DepsMut, _e: Env, _i: MessageInfo, _m: Empty) -> StdResult<Response> { Ok(Response::default()) }
     fn execute(_d: DepsMut, _e: Env, _i: MessageInfo, m: Exec) -> StdResult<Response> {
-        match m { Exec::Send { to_address, amount } => Ok(Response::new().add_message(BankMsg::Send { to_address, amount })) }
+        match m {
+            Exec::Send { to_address, amount } => Ok(Response::new().add_message(BankMsg::Send { to_address, amount })),
+            Exec::Cw20Transfer { token, to_address, amount } => Ok(Response::new().add_message(cosmwasm_std::WasmMsg::Execute { contract_addr: token,
+                msg: to_json_binary(&cw20::Cw20ExecuteMsg::Transfer { recipient: to_address, amount })?, funds: vec![] })),
+        }
     }
     fn query(_d: Deps, _e: Env, _m: Empty) -> StdResult<Binary> { to_json_binary(&0u8) }
     pub fn contract() -> Box<dyn Contract<Empty>> { Box::new(ContractWrapper::new(execute, instantiate, query)) }
@@ -282,7 +321,7 @@ impl EpochWorld {
             .map(|_| ()).map_err(|e| format!("{:#}", e))
     }
     pub fn create_pair(&mut self, a: &str, b: &str, protocol: u128, swap: u128, burn: u128) -> Result<Addr, String> {
-        let infos = [native(a), native(b)];
+        let infos = [self.ainfo(a), self.ainfo(b)];
         self.app.execute_contract(Addr::unchecked(OWNER), self.pool_factory.clone(),
             &white_whale_std::pool_network::factory::ExecuteMsg::CreatePair { asset_infos: infos.clone(), pool_fees: pool_fee(protocol, swap, burn),
                 pair_type: PairType::ConstantProduct, token_factory_lp: false }, &[]).map_err(|e| format!("{:#}", e))?;
@@ -291,48 +330,59 @@ impl EpochWorld {
         Ok(Addr::unchecked(info.contract_addr))
     }
     pub fn provide(&mut self, pair: &Addr, a: &str, x: u128, b: &str, y: u128) -> Result<(), String> {
-        let mut funds = vec![coin(x, a), coin(y, b)];
-        funds.sort_by(|p, q| p.denom.cmp(&q.denom));
+        let funds = self.native_funds(&[(a, x), (b, y)]);
+        self.allow(OWNER, pair, a, x);
+        self.allow(OWNER, pair, b, y);
+        let assets = [self.asset_of(a, x), self.asset_of(b, y)];
         self.app.execute_contract(Addr::unchecked(OWNER), pair.clone(),
-            &white_whale_std::pool_network::pair::ExecuteMsg::ProvideLiquidity { assets: [asset_native(a, x), asset_native(b, y)], slippage_tolerance: None, receiver: None }, &funds)
+            &white_whale_std::pool_network::pair::ExecuteMsg::ProvideLiquidity { assets, slippage_tolerance: None, receiver: None }, &funds)
             .map(|_| ()).map_err(|e| format!("{:#}", e))
     }
     pub fn pair_swap(&mut self, who: &str, pair: &Addr, offer: &str, amount: u128) -> anyhow::Result<AppResponse> {
+        if let Some(tok) = self.cw20s.get(offer).cloned() {
+            let hook = cosmwasm_std::to_json_binary(&white_whale_std::pool_network::pair::Cw20HookMsg::Swap { belief_price: None, max_spread: Some(Decimal::percent(50)), to: None })?;
+            return self.app.execute_contract(Addr::unchecked(who), tok, &cw20::Cw20ExecuteMsg::Send { contract: pair.to_string(), amount: Uint128::new(amount), msg: hook }, &[]);
+        }
         self.app.execute_contract(Addr::unchecked(who), pair.clone(),
             &white_whale_std::pool_network::pair::ExecuteMsg::Swap { offer_asset: asset_native(offer, amount), belief_price: None,
                 max_spread: Some(Decimal::percent(50)), to: None }, &[coin(amount, offer)])
     }
     pub fn create_vault(&mut self, denom: &str, protocol: u128, flash: u128) -> Result<Addr, String> {
         self.app.execute_contract(Addr::unchecked(OWNER), self.vault_factory.clone(),
-            &white_whale_std::vault_network::vault_factory::ExecuteMsg::CreateVault { asset_info: native(denom),
+            &white_whale_std::vault_network::vault_factory::ExecuteMsg::CreateVault { asset_info: self.ainfo(denom),
                 fees: VaultFee { protocol_fee: Fee { share: dec(protocol) }, flash_loan_fee: Fee { share: dec(flash) }, burn_fee: Fee { share: dec(0) } },
                 token_factory_lp: false }, &[]).map_err(|e| format!("{:#}", e))?;
         let v: Option<String> = self.app.wrap().query_wasm_smart(&self.vault_factory,
-            &white_whale_std::vault_network::vault_factory::QueryMsg::Vault { asset_info: native(denom) }).map_err(|e| e.to_string())?;
+            &white_whale_std::vault_network::vault_factory::QueryMsg::Vault { asset_info: self.ainfo(denom) }).map_err(|e| e.to_string())?;
         v.map(Addr::unchecked).ok_or_else(|| "vault not registered".to_string())
     }
     pub fn vault_deposit(&mut self, vault: &Addr, denom: &str, amount: u128) -> Result<(), String> {
+        self.allow(OWNER, vault, denom, amount);
+        let funds = self.native_funds(&[(denom, amount)]);
         self.app.execute_contract(Addr::unchecked(OWNER), vault.clone(),
-            &white_whale_std::vault_network::vault::ExecuteMsg::Deposit { amount: Uint128::new(amount) }, &[coin(amount, denom)])
+            &white_whale_std::vault_network::vault::ExecuteMsg::Deposit { amount: Uint128::new(amount) }, &funds)
             .map(|_| ()).map_err(|e| format!("{:#}", e))
     }
     /// a flash loan taken by the borrower contract, repaid with the fees the vault asks for
     pub fn flash_loan(&mut self, borrower: &Addr, vault: &Addr, denom: &str, amount: u128) -> anyhow::Result<AppResponse> {
         let pay: white_whale_std::vault_network::vault::PaybackAmountResponse = self.app.wrap().query_wasm_smart(vault,
             &white_whale_std::vault_network::vault::QueryMsg::GetPaybackAmount { amount: Uint128::new(amount) })?;
-        let msg = cosmwasm_std::to_json_binary(&borrower::Exec::Send { to_address: vault.to_string(), amount: vec![coin(pay.payback_amount.u128(), denom)] })?;
+        let msg = match self.cw20s.get(denom) {
+            Some(tok) => cosmwasm_std::to_json_binary(&borrower::Exec::Cw20Transfer { token: tok.to_string(), to_address: vault.to_string(), amount: pay.payback_amount })?,
+            None => cosmwasm_std::to_json_binary(&borrower::Exec::Send { to_address: vault.to_string(), amount: vec![coin(pay.payback_amount.u128(), denom)] })?,
+        };
         self.app.execute_contract(borrower.clone(), vault.clone(),
             &white_whale_std::vault_network::vault::ExecuteMsg::FlashLoan { amount: Uint128::new(amount), msg }, &[])
     }
     pub fn add_route(&mut self, offer: &str, ask: &str, hops: &[(&str, &str)]) -> Result<(), String> {
-        let ops: Vec<SwapOperation> = hops.iter().map(|(o, a)| SwapOperation::TerraSwap { offer_asset_info: native(o), ask_asset_info: native(a) }).collect();
+        let ops: Vec<SwapOperation> = hops.iter().map(|(o, a)| SwapOperation::TerraSwap { offer_asset_info: self.ainfo(o), ask_asset_info: self.ainfo(a) }).collect();
         self.app.execute_contract(Addr::unchecked(OWNER), self.router.clone(),
-            &white_whale_std::pool_network::router::ExecuteMsg::AddSwapRoutes { swap_routes: vec![SwapRoute { offer_asset_info: native(offer), ask_asset_info: native(ask), swap_operations: ops }] }, &[])
+            &white_whale_std::pool_network::router::ExecuteMsg::AddSwapRoutes { swap_routes: vec![SwapRoute { offer_asset_info: self.ainfo(offer), ask_asset_info: self.ainfo(ask), swap_operations: ops }] }, &[])
             .map(|_| ()).map_err(|e| format!("{:#}", e))
     }
     pub fn route_ops(&self, offer: &str, ask: &str) -> Option<Vec<SwapOperation>> {
         self.app.wrap().query_wasm_smart::<Vec<SwapOperation>>(&self.router,
-            &white_whale_std::pool_network::router::QueryMsg::SwapRoute { offer_asset_info: native(offer), ask_asset_info: native(ask) }).ok()
+            &white_whale_std::pool_network::router::QueryMsg::SwapRoute { offer_asset_info: self.ainfo(offer), ask_asset_info: self.ainfo(ask) }).ok()
     }
     pub fn simulate_route(&self, amount: u128, ops: &[SwapOperation]) -> bool {
         let (app, router, ops) = (&self.app, self.router.clone(), ops.to_vec());
